@@ -447,7 +447,7 @@ class Sim:
         rng = random.Random(app['seed'])
         done = threading.Event()
         self.app_busy = lambda: not done.is_set()
-        self.drain_budget = 10 ** 7
+        self.drain_budget = 5000 + 8 * app["n"]      # a link that does not move must still end the session
         self.put_timeouts = 0
 
         def application():
